@@ -40,6 +40,15 @@ TTable ==
      /\ inst.live
      /\ LayerM => Report(l, "M:table", MTable(inst, e))
      /\ LayerM => Report(l, "M:short", MShort(inst, e))
+\* the stored message, field by field, is the encoding of the Model table (Level B)
+TProto ==
+  /\ Ev("proto") /\ Read
+  /\ LET e == Trace[l] IN
+     /\ inst.live
+     /\ (LayerM /\ ~inst.legacy) =>
+          Report(l, "M:encoding",
+                 IF Len(inst.nodes) = 0 THEN (IF e.empty = 1 THEN {} ELSE {"non-empty"})
+                 ELSE IF e.empty = 1 THEN {"empty"} ELSE EncodingDiff(inst, e))
 TTableErr == Ev("tableerr") /\ Read /\ Report(l, "M:undecodable", {1})
 
 TStat ==
@@ -256,7 +265,7 @@ TModes ==
      /\ Report(l, "P:C13:onkeys", b.onkeys)
      /\ LayerM => Report(l, "M:modes", ModesDrift(e))
 
-TNext == UNCHANGED iters /\ (TNew \/ TTable \/ TTableErr \/ TStat \/ TObsK \/ TObsQ \/ TLoad \/ TModes \/ TRender \/ TMcheck \/ TIndex \/ TLegacy \/ TCalibration \/ TScan \/ TObsBig \/ TBigFail)
+TNext == UNCHANGED iters /\ (TNew \/ TProto \/ TTable \/ TTableErr \/ TStat \/ TObsK \/ TObsQ \/ TLoad \/ TModes \/ TRender \/ TMcheck \/ TIndex \/ TLegacy \/ TCalibration \/ TScan \/ TObsBig \/ TBigFail)
 
 \* every line consumed: l - 1 = Len(Trace) in the last state
 Accepted == TLCGet("stats").diameter - 1 = Len(Trace)
